@@ -11,6 +11,7 @@ import (
 
 	"golang.org/x/tools/go/callgraph"
 	"golang.org/x/tools/go/callgraph/cha"
+	"golang.org/x/tools/go/callgraph/vta"
 	"golang.org/x/tools/go/packages"
 	"golang.org/x/tools/go/ssa"
 	"golang.org/x/tools/go/ssa/ssautil"
@@ -30,6 +31,7 @@ type Global struct {
 	typeByID map[string]types.Type
 	frameBits map[*ssa.Function][]uint64
 	keyName  []string
+	nonNil   map[*ssa.Global]bool
 	loadS    float64
 	frameS   float64
 	repo     string
@@ -135,7 +137,49 @@ func loadGlobal(repo string) (*Global, error) {
 		return nil, err
 	}
 	g.cs = cs
+	theGlobal = g
 	return g, nil
+}
+
+// initNonNil: an interface-typed package variable that is assigned only in
+// its package initialiser, from errors.New / fmt.Errorf / a boxed value.
+func (g *Global) initNonNil(v *ssa.Global) bool {
+	if g.nonNil == nil {
+		g.nonNil = map[*ssa.Global]bool{}
+		bad := map[*ssa.Global]bool{}
+		for _, fn := range g.allFns {
+			for _, b := range fn.Blocks {
+				for _, in := range b.Instrs {
+					st, ok := in.(*ssa.Store)
+					if !ok {
+						continue
+					}
+					gv, ok := st.Addr.(*ssa.Global)
+					if !ok {
+						continue
+					}
+					good := fn.Synthetic == "package initializer" || fn.Name() == "init"
+					if good {
+						switch val := st.Val.(type) {
+						case *ssa.Call:
+							callee := val.Common().StaticCallee()
+							good = callee != nil && (callee.String() == "errors.New" || callee.String() == "fmt.Errorf")
+						case *ssa.MakeInterface:
+						default:
+							good = false
+						}
+					}
+					if good && !bad[gv] {
+						g.nonNil[gv] = true
+					} else {
+						bad[gv] = true
+						delete(g.nonNil, gv)
+					}
+				}
+			}
+		}
+	}
+	return g.nonNil[v]
 }
 
 func (g *Global) globalID(v *ssa.Global) int {
@@ -153,6 +197,15 @@ func (g *Global) buildFrames() {
 	}
 	t0 := time.Now()
 	g.cg = cha.CallGraph(g.prog)
+	if os.Getenv("RAINVC_CG") != "cha" {
+		// Variable-type analysis refines the interface and function-value edges of CHA:
+		// it keeps only the callees whose receiver/function values can flow to the call site.
+		fns := map[*ssa.Function]bool{}
+		for _, fn := range g.allFns {
+			fns[fn] = true
+		}
+		g.cg = vta.CallGraph(fns, g.cg)
+	}
 	g.computeFrames()
 	g.frameS = time.Since(t0).Seconds()
 }
